@@ -10,7 +10,7 @@ use crate::refs::qpack;
 use crate::refs::varint;
 use crate::runner::{Check, Meta, RunCtx, RunOut, Violation};
 use h3::ext::Protocol;
-use h3::quic::{RecvStream as _, SendStream as _, SendStreamUnframed as _, StreamId};
+use h3::quic::{RecvStream as _, SendStream as _, StreamId};
 use h3_webtransport::server::{AcceptedBi, WebTransportSession};
 use h3_webtransport::SessionId;
 use serde_json::json;
@@ -101,6 +101,70 @@ macro_rules! wt_read_all {
     }};
 }
 
+/// Write `payload` on a WebTransport stream through one of the three interfaces the stream types offer and,
+/// if `fin`, end the stream through the same interface: 0 h3::quic::SendStreamUnframed::poll_send /
+/// SendStream::poll_finish, 1 tokio's AsyncWrite the way write_all / shutdown use it, 2 the futures AsyncWrite
+/// (write_all / close). Every call offers at most `offer` bytes of what is left. Yields whether every call
+/// succeeded; a write call that reports more bytes than it was offered, or none, is recorded as a failure.
+macro_rules! wt_write_all {
+    ($s:expr, $mode:expr, $offer:expr, $payload:expr, $fin:expr, $rec:expr, $id:expr) => {{
+        let p: &[u8] = $payload;
+        let offer: usize = $offer;
+        let mut off = 0usize;
+        let mut ok = true;
+        while off < p.len() && ok {
+            let end = (off + offer.max(1)).min(p.len());
+            let given = end - off;
+            let r: Result<usize, String> = match $mode {
+                1 => poll_fn(|cx| tokio::io::AsyncWrite::poll_write(std::pin::Pin::new(&mut $s), cx, &p[off..end])).await.map_err(|e| e.to_string()),
+                2 => poll_fn(|cx| futures_util::io::AsyncWrite::poll_write(std::pin::Pin::new(&mut $s), cx, &p[off..end])).await.map_err(|e| e.to_string()),
+                _ => {
+                    let mut b = &p[off..end];
+                    poll_fn(|cx| h3::quic::SendStreamUnframed::poll_send(&mut $s, cx, &mut b)).await.map_err(|e| e.to_string())
+                }
+            };
+            match r {
+                Ok(n) if n == 0 || n > given => {
+                    $rec.borrow_mut().open_errs.push(format!("stream {}: a write call that was offered {given} bytes reported {n} written (interface {})", $id, $mode));
+                    ok = false;
+                }
+                Ok(n) => off += n,
+                Err(e) => {
+                    $rec.borrow_mut().open_errs.push(format!("stream {}: write failed: {e} (interface {})", $id, $mode));
+                    ok = false;
+                }
+            }
+        }
+        if ok && $mode != 0 {
+            // flush is part of what write_all + flush / shutdown do
+            let r = match $mode {
+                1 => poll_fn(|cx| tokio::io::AsyncWrite::poll_flush(std::pin::Pin::new(&mut $s), cx)).await.map_err(|e| e.to_string()),
+                _ => poll_fn(|cx| futures_util::io::AsyncWrite::poll_flush(std::pin::Pin::new(&mut $s), cx)).await.map_err(|e| e.to_string()),
+            };
+            if let Err(e) = r {
+                $rec.borrow_mut().open_errs.push(format!("stream {}: flush failed: {e}", $id));
+                ok = false;
+            }
+        }
+        if ok && $fin {
+            let r = match $mode {
+                1 => poll_fn(|cx| tokio::io::AsyncWrite::poll_shutdown(std::pin::Pin::new(&mut $s), cx)).await.map_err(|e| e.to_string()),
+                2 => poll_fn(|cx| futures_util::io::AsyncWrite::poll_close(std::pin::Pin::new(&mut $s), cx)).await.map_err(|e| e.to_string()),
+                _ => poll_fn(|cx| h3::quic::SendStream::poll_finish(&mut $s, cx)).await.map_err(|e| e.to_string()),
+            };
+            if let Err(e) = r {
+                $rec.borrow_mut().open_errs.push(format!("stream {}: finishing failed: {e} (interface {})", $id, $mode));
+                ok = false;
+            }
+        }
+        match $mode {
+            1 => obs::count("probe.wt_stream_written_through_tokio_asyncwrite"),
+            2 => obs::count("probe.wt_stream_written_through_futures_asyncwrite"),
+            _ => obs::count("probe.wt_stream_written_through_poll_send"),
+        }
+        ok
+    }};
+}
 
 fn sid_value(s: SessionId) -> u64 {
     StreamId::from(s).into_inner()
@@ -113,7 +177,9 @@ struct Rec {
     /// incoming streams by QUIC stream id: (reported session id, bytes, ended cleanly)
     incoming: BTreeMap<u64, (u64, Vec<u8>, bool)>,
     read_errs: Vec<String>,
-    opened: Vec<(bool, u64, Vec<u8>)>, // (uni, stream id, payload written)
+    opened: Vec<(bool, u64, Vec<u8>, bool)>, // (uni, stream id, payload written, finished by the application)
+    /// answers written on bidi streams the client opened: (stream id, payload, finished by the application)
+    replied: Vec<(u64, Vec<u8>, bool)>,
     open_errs: Vec<String>,
     other_requests: u32,
     accept_err: Option<String>,
@@ -127,7 +193,7 @@ impl Check for C19 {
     fn meta(&self) -> Meta {
         Meta {
             level: "exploration",
-            rule: "CONNECT (webtransport) request placed on stream id 4k for k in {0,1,2,3,15,16,4095,4096,2^28,2^58} (1-, 2-, 4- and 8-byte varint ids), accepted first or after 0-2 ordinary requests; extension enabled or disabled on the server; 0-3 client-opened WebTransport uni and 0-2 bidi streams (read whole, or split() before the first read; each stream read through the h3::quic::RecvStream trait, through tokio's AsyncRead with one ReadBuf of 1-16 bytes filled over several calls as read_exact does, or through the futures AsyncRead) whose header (0x54/0x41 + session id, every varint form) and payload (0..40 bytes, sometimes 300) are delivered in 1-3 byte chunks so that every boundary inside the two varints and the header/payload boundary falls on a chunk edge, incl. header+payload in one chunk with nothing after it and header then FIN; 0-2 server-opened uni and bidi streams with drawn write acceptance; all interleavings drawn; judged at exact quiescence with the streams still open; non-trivial = session established and >= 1 WebTransport stream; distinct = distinct schedule signatures",
+            rule: "CONNECT (webtransport) request placed on stream id 4k for k in {0,1,2,3,15,16,4095,4096,2^28,2^58} (1-, 2-, 4- and 8-byte varint ids), accepted first or after 0-2 ordinary requests; extension enabled or disabled on the server; 0-3 client-opened WebTransport uni and 0-2 bidi streams (read whole, or split() before the first read; each stream read through the h3::quic::RecvStream trait, through tokio's AsyncRead with one ReadBuf of 1-16 bytes filled over several calls as read_exact does, or through the futures AsyncRead) whose header (0x54/0x41 + session id, every varint form) and payload (0..40 bytes, sometimes 300) are delivered in 1-3 byte chunks so that every boundary inside the two varints and the header/payload boundary falls on a chunk edge, incl. header+payload in one chunk with nothing after it and header then FIN; 0-2 server-opened uni and bidi streams (bidi: whole, or split() and written by the send half) and, on one accepted bidi stream in two, an answer written back (by the send half in a task of its own after split(), before reading otherwise), each written through SendStreamUnframed::poll_send, tokio's AsyncWrite (poll_write/poll_flush/poll_shutdown as write_all and shutdown use them) or the futures AsyncWrite (poll_write/poll_flush/poll_close), 1-64 bytes offered per call, ended by the application or left open, with drawn write acceptance: the wire must carry exactly header + payload (answers: the payload only) and a FIN exactly when the application ended the stream; all interleavings drawn; judged at exact quiescence with the streams still open; non-trivial = session established and >= 1 WebTransport stream; distinct = distinct schedule signatures",
             real: &["h3_webtransport::server::WebTransportSession (accept, session_id, open_bi, open_uni, accept_bi, accept_uni)", "h3_webtransport::stream types", "h3::webtransport::SessionId", "h3 server connection, AcceptRecvStream (uni header resolution), FrameStream (0x41 signal), stream header encoding"],
             stub: &["QUIC transport incl. datagram and unframed-send extension traits (SimQuic)", "executor (simexec)", "reference client (script, reference codecs)", "application tasks"],
             assumptions: &["the reference client opens WebTransport bidi streams only after it has seen the 2xx response (a bidi stream that overtakes the CONNECT request is refused by h3's ordinary accept path, which is outside this property)", "stream ids above 2^20 are used with arrival-order accept only"],
@@ -369,16 +435,41 @@ impl Check for C19 {
                                     // the application may split the accepted stream before it reads (one time in two)
                                     let split_first = draw(2) == 1;
                                     let (mode, cap) = (draw(3), 1 + draw_usize(16));
+                                    // one accepted stream in two is answered: a payload of its own written back on the
+                                    // stream the client opened (no header there), through a drawn interface, by the
+                                    // send half in a task of its own if the stream was split, before reading otherwise
+                                    let reply: Option<(Vec<u8>, bool, u32, usize)> = if draw(2) == 1 { Some((draw_bytes(if chance(1, 8) { 300 } else { draw_usize(41) }), chance(1, 2), draw(3), 1 + draw_usize(64))) } else { None };
                                     exec::spawn(format!("wt-bi-reader{id}"), async move {
                                         if split_first {
                                             obs::count("probe.incoming_bidi_split_before_reading");
-                                            let (tx, mut rx) = h3::quic::BidiStream::split(s);
+                                            let (mut tx, mut rx) = h3::quic::BidiStream::split(s);
+                                            if let Some((p, fin, wmode, offer)) = reply {
+                                                let wrec = rec.clone();
+                                                exec::spawn(format!("wt-bi-writer{id}"), async move {
+                                                    obs::count("probe.incoming_bidi_answered_by_its_send_half");
+                                                    if wt_write_all!(tx, wmode, offer, &p, fin, wrec, id) {
+                                                        wrec.borrow_mut().replied.push((id, p, fin));
+                                                    }
+                                                    std::future::pending::<()>().await;
+                                                    drop(tx);
+                                                });
+                                                wt_read_all!(rx, mode, cap, rec, id, "bidi (receive half)");
+                                                std::future::pending::<()>().await;
+                                                return;
+                                            }
                                             wt_read_all!(rx, mode, cap, rec, id, "bidi (receive half)");
                                             std::future::pending::<()>().await;
                                             drop(tx);
                                             return;
                                         }
+                                        if let Some((p, fin, wmode, offer)) = reply {
+                                            obs::count("probe.incoming_bidi_answered_before_reading");
+                                            if wt_write_all!(s, wmode, offer, &p, fin, rec, id) {
+                                                rec.borrow_mut().replied.push((id, p, fin));
+                                            }
+                                        }
                                         wt_read_all!(s, mode, cap, rec, id, "bidi");
+                                        std::future::pending::<()>().await;
                                     });
                                 }
                                 Ok(Some(AcceptedBi::Request(_, mut s))) => {
@@ -397,19 +488,20 @@ impl Check for C19 {
                 }
                 // streams the server opens for the session
                 let mut keep_bi = vec![];
+                let mut keep_uni = vec![];
+                let mut keep_halves = vec![];
                 for (j, p) in open_payloads.iter().enumerate() {
                     let uni = j < n_open_uni;
+                    // interface, bytes offered per call, and whether the application ends the stream: all drawn
+                    let (wmode, offer, fin) = (draw(3), 1 + draw_usize(64), draw(2) == 1);
                     if uni {
                         match session.open_uni(session.session_id()).await {
                             Ok(mut s) => {
                                 let id = s.send_id().into_inner();
-                                let mut buf = &p[..];
-                                let mut ok = true;
-                                while !buf.is_empty() && ok {
-                                    ok = poll_fn(|cx| s.poll_send(cx, &mut buf)).await.is_ok();
+                                if wt_write_all!(s, wmode, offer, &p[..], fin, rec, id) {
+                                    rec.borrow_mut().opened.push((true, id, p.clone(), fin));
                                 }
-                                let _ = poll_fn(|cx| s.poll_finish(cx)).await;
-                                rec.borrow_mut().opened.push((true, id, p.clone()));
+                                keep_uni.push(s);
                             }
                             Err(e) => rec.borrow_mut().open_errs.push(format!("open_uni: {e}")),
                         }
@@ -417,14 +509,21 @@ impl Check for C19 {
                         match session.open_bi(session.session_id()).await {
                             Ok(mut s) => {
                                 let id = s.send_id().into_inner();
-                                let mut buf = &p[..];
-                                let mut ok = true;
-                                while !buf.is_empty() && ok {
-                                    ok = poll_fn(|cx| s.poll_send(cx, &mut buf)).await.is_ok();
+                                if draw(3) == 2 {
+                                    // the application splits the stream it opened and writes through the send half
+                                    obs::count("probe.opened_bidi_split_before_writing");
+                                    let (mut tx, rx) = h3::quic::BidiStream::split(s);
+                                    if wt_write_all!(tx, wmode, offer, &p[..], fin, rec, id) {
+                                        rec.borrow_mut().opened.push((false, id, p.clone(), fin));
+                                    }
+                                    keep_halves.push((tx, rx));
+                                } else {
+                                    if wt_write_all!(s, wmode, offer, &p[..], fin, rec, id) {
+                                        rec.borrow_mut().opened.push((false, id, p.clone(), fin));
+                                    }
+                                    // keep the handle until the run is over so that a drop does not end the stream
+                                    keep_bi.push(s);
                                 }
-                                rec.borrow_mut().opened.push((false, id, p.clone()));
-                                // keep the handle until the run is over so that a drop does not end the stream
-                                keep_bi.push(s);
                             }
                             Err(e) => rec.borrow_mut().open_errs.push(format!("open_bi: {e}")),
                         }
@@ -432,6 +531,8 @@ impl Check for C19 {
                 }
                 std::future::pending::<()>().await;
                 drop(keep_bi);
+                drop(keep_uni);
+                drop(keep_halves);
                 drop(session);
             });
         }
@@ -515,8 +616,13 @@ impl Check for C19 {
             }
         }
         // streams the server opened: header = type + CONNECT stream id, then exactly the payload
-        for (uni, id, p) in &r.opened {
+        for (uni, id, p, fin) in &r.opened {
             let w = n.sent(*id, SERVER);
+            let d = n.dir_ref(*id, SERVER);
+            let (fin_calls, fin_sent, reset) = d.map(|d| (d.finish_calls, d.fin_sent, d.reset_calls.clone())).unwrap_or_default();
+            if (*fin && !fin_sent) || (!*fin && fin_calls > 0) || !reset.is_empty() {
+                return mk("C19.opened_stream_end_wrong", format!("stream {id}: the application {} the stream; the transport saw {fin_calls} finish call(s), FIN sent {fin_sent}, resets {reset:?}", if *fin { "ended" } else { "did not end" }));
+            }
             let want_ty = if *uni { frames::ST_WT_UNI } else { frames::WT_BIDI_SIGNAL };
             let parsed = varint::decode(w).and_then(|(ty, a)| varint::decode(&w[a..]).map(|(sid, b)| (ty, sid, a + b)));
             match parsed {
@@ -526,6 +632,18 @@ impl Check for C19 {
                     }
                 }
                 other => return mk("C19.opened_stream_header_wrong", format!("stream {id} opened for session {cid}: wire begins [{}] = {:?}, expected type {want_ty:#x} + id {cid}", w.iter().take(16).map(|x| format!("{x:02x}")).collect::<Vec<_>>().join(" "), other)),
+            }
+        }
+        // answers on streams the client opened: exactly the payload, no header, ended iff the application ended it
+        for (id, p, fin) in &r.replied {
+            let w = n.sent(*id, SERVER);
+            if w != &p[..] {
+                return mk("C19.answer_payload_wrong", format!("bidi stream {id} opened by the client: {} bytes on the wire [{}], the application wrote {} [{}]", w.len(), w.iter().take(12).map(|x| format!("{x:02x}")).collect::<Vec<_>>().join(" "), p.len(), p.iter().take(12).map(|x| format!("{x:02x}")).collect::<Vec<_>>().join(" ")));
+            }
+            let d = n.dir_ref(*id, SERVER);
+            let (fin_calls, fin_sent, reset) = d.map(|d| (d.finish_calls, d.fin_sent, d.reset_calls.clone())).unwrap_or_default();
+            if (*fin && !fin_sent) || (!*fin && fin_calls > 0) || !reset.is_empty() {
+                return mk("C19.answer_end_wrong", format!("bidi stream {id}: the application {} its answer; the transport saw {fin_calls} finish call(s), FIN sent {fin_sent}, resets {reset:?}", if *fin { "ended" } else { "did not end" }));
             }
         }
         if r.other_requests as usize != n_before {
@@ -542,7 +660,7 @@ impl Check for C19 {
         }
         let mut out = RunOut::ok(n_uni + n_bi + r.opened.len() >= 1);
         if ctx.want_sample {
-            out.sample = Some(json!({"connect_stream_id": cid, "requests_before": n_before, "extension_enabled": wt_enabled, "client_uni_streams": uni_plan.iter().map(|(p, f)| json!({"payload_len": p.len(), "fin": f})).collect::<Vec<_>>(), "client_bidi_streams": bi_plan.iter().map(|(p, f)| json!({"payload_len": p.len(), "fin": f})).collect::<Vec<_>>(), "server_opened": r.opened.iter().map(|(u, id, p)| json!({"uni": u, "stream": id, "payload_len": p.len()})).collect::<Vec<_>>(), "session_id_reported": sid}));
+            out.sample = Some(json!({"connect_stream_id": cid, "requests_before": n_before, "extension_enabled": wt_enabled, "client_uni_streams": uni_plan.iter().map(|(p, f)| json!({"payload_len": p.len(), "fin": f})).collect::<Vec<_>>(), "client_bidi_streams": bi_plan.iter().map(|(p, f)| json!({"payload_len": p.len(), "fin": f})).collect::<Vec<_>>(), "server_opened": r.opened.iter().map(|(u, id, p, fin)| json!({"uni": u, "stream": id, "payload_len": p.len(), "finished": fin})).collect::<Vec<_>>(), "answers_on_client_opened_bidi": r.replied.iter().map(|(id, p, fin)| json!({"stream": id, "payload_len": p.len(), "finished": fin})).collect::<Vec<_>>(), "session_id_reported": sid}));
         }
         out
     }
